@@ -83,6 +83,7 @@ prop("C20", [
 
 prop("C02", [
     dict(engine="verus", unit="dhcpranges"),
+    dict(engine="verus", unit="dhcpused"),
     dict(engine="verus", unit="pool", fns=["Pool::select_requested_address", "Pool::select_new_address", "Pool::select_address", "Pool::allocate_address"]),
     dict(engine="kani", sets=["net_subnet"]),
     dict(POOL_B, checks=["allocate_address/C02"]),
